@@ -74,6 +74,7 @@ pub fn menu(s: &Structure) -> Vec<Op> {
     v.push(stake(P::C32, MintTo::Proto, None, false, Funds::Native, vec![]));
     v.push(stake(P::HookStaker, MintTo::Native, None, true, Funds::Native, vec![]));
     v.push(stake(P::U(0), MintTo::Invalid, None, false, Funds::Native, vec![]));
+    v.push(stake(P::U(0), MintTo::Multi, None, false, Funds::Native, vec![]));
     v.push(stake(P::U(0), MintTo::None, None, false, Funds::Other, vec![]));
     v.push(stake(P::U(0), MintTo::None, None, false, Funds::None, vec![]));
     v.push(stake(P::U(0), MintTo::None, None, false, Funds::Native, vec![1]));
@@ -129,6 +130,8 @@ pub fn menu(s: &Structure) -> Vec<Op> {
     v.push(rec(P::U(0), Some(true), None, Some("n2"), vec![]));
     v.push(rec(P::U(0), None, None, Some("proto"), vec![]));
     v.push(rec(P::U(0), None, None, Some("garbage"), vec![]));
+    v.push(rec(P::U(0), None, None, Some("celesti\u{e9}1qqqqqqqqqqqqqqqqqqqqqqqqqqqqqqqqqqqqqq"), vec![]));
+    v.push(rec(P::U(0), None, None, Some("\u{1F600}\u{1F600}\u{1F600}"), vec![]));
     v.push(rec(P::U(0), None, None, None, vec![1]));
     v.push(rec(P::U(0), None, None, None, vec![2]));
     v.push(rec(P::Admin, None, None, None, vec![]));
@@ -204,7 +207,7 @@ pub fn admin_menu() -> Vec<Op> {
     }
     // the third user is a configured monitor in configuration variant 2
     v.push(Op::Breaker { sender: P::U(2) });
-    for w in 1..4 {
+    for w in 1..5 {
         v.push(Op::AddValidator { sender: P::Admin, which: w });
         v.push(Op::RemoveValidator { sender: P::Admin, which: w });
     }
